@@ -18,7 +18,7 @@ unrolled; a statement the evaluator cannot follow makes the affected locals `UNK
 import re
 
 import hirq
-from facts import AnchorMissing, path_matches
+from facts import AnchorMissing, path_matches, const_eval
 
 
 class _Unk:
@@ -301,6 +301,9 @@ class PE:
             if dk.startswith("Ctor") and "Const" in dk:
                 return Enum(r["p"])
             if dk.startswith(("Const", "AssocConst", "Static")):
+                lim = const_eval(n)   # i64::MIN, u32::MAX, ...
+                if lim is not None:
+                    return lim
                 return self.const(r["p"])
         return UNK
 
